@@ -117,6 +117,18 @@ CHECKS.update({
                 ref="5/C08", note=E1_NOTE),
 })
 
+CHECKS.update({
+    "C19": dict(engine="E3+E1", technique="exhaustive enumeration of a description "
+                "grammar through the real loaders vs a reference interpreter; "
+                "closed-loop in-flight bound by run exploration (E1)",
+                text="Graphs, profiles, strategies, SLOs, workers/resources, release "
+                     "times per policy, fresh isomorphic instances, deadline = release "
+                     "+ L(1+f) for the low/high/middle fuzz answer, override flags, "
+                     "replication, JSON and YAML; closed loop: in-flight <= concurrency "
+                     "at every event, N in total.",
+                ref="5/C19", note=E23_NOTE + " " + E1_NOTE),
+})
+
 NOT_YET = {}
 
 
@@ -179,10 +191,10 @@ ENGINES = [
     {"name": "E2", "path": "vf/checks/c04.py", "serves_properties": ["C04", "C16", "C18"],
      "kind_free_text": "explicit-state BFS over operation histories on real objects "
                        "(state = history, rebuilt on fresh objects), reference model"},
-    {"name": "E3", "path": "vf/checks/c17.py", "serves_properties": ["C13", "C16", "C17"],
+    {"name": "E3", "path": "vf/checks/c17.py", "serves_properties": ["C13", "C16", "C17", "C19"],
      "kind_free_text": "exhaustive input enumeration of pure functions vs brute force"},
     {"name": "E1", "path": "vf/e1.py", "serves_properties":
-        ["C01", "C02", "C03", "C05", "C06", "C07", "C08", "C18"],
+        ["C01", "C02", "C03", "C05", "C06", "C07", "C08", "C18", "C19"],
      "kind_free_text": "closed-world run explorer: real main.main() in-process, answer "
                        "tape for randomness, shadow monitors on every event"},
 ]
